@@ -63,15 +63,15 @@ func capFor(limit, passes, n int) int {
 }
 
 type cell struct {
-	v                     variant
-	limit, passes, n      int
-	cons, cap             int
-	junk                  bool
-	mode, via             string
-	at, shots, pad        int
-	jit                   int
-	eol, gate             int
-	idle                  bool
+	v                variant
+	limit, passes, n int
+	cons, cap        int
+	junk             bool
+	mode, via        string
+	at, shots, pad   int
+	jit              int
+	eol, gate        int
+	idle             bool
 }
 
 func b2i(x bool) int {
